@@ -64,6 +64,7 @@ type partition struct {
 	pending   map[int64][]*run // 贪婪：已完成 run 按 startSeq 暂存，等延伸终止选最长 emit
 	matchNo   int              // 本分区已输出匹配数（MATCH_NUMBER）
 	nextStart int64            // 下一个允许起匹配的 seq（SKIP 策略）
+	seq       int64            // rows of this partition seen so far (row numbers are per partition)
 }
 
 // frame 是匹配历史的不可变节点（cons-list）：advance 仅 O(1) 追加，前缀天然共享，
@@ -340,10 +341,14 @@ func (e *Engine) Process(row map[string]any, partitionKey string) []map[string]a
 
 	e.mu.Lock()
 	defer e.mu.Unlock()
-	e.seq++
-	mrSeq := e.seq
-
 	p := e.getPartition(partitionKey)
+	// Row numbers are per partition: skipTo / seqOfLabel compute row positions as
+	// startSeq + offset, which only holds when a partition's rows are numbered
+	// consecutively. A counter shared by all partitions left gaps whenever
+	// partitions interleave, so AFTER MATCH SKIP resumed too early and matches of
+	// one partition overlapped.
+	p.seq++
+	mrSeq := p.seq
 	emitted := e.step(p, row, ts, mrSeq)
 	e.evictIfNeeded()
 	return emitted
